@@ -747,7 +747,8 @@ def dirty_content(rng):
     if rng.random() < 0.25:
         lines = ["  " + l + " \t" if rng.random() < 0.5 else l for l in lines]
     ballots = ["1: 1, 2", "2: {1, 2}, {}", "1:1,2", "3: {}, {}", "1: {1,2},{}", "4: 2, 1", "1: 1, 2", "10: {}, 3",
-               "2: {1 , 2} , { }", "1:", "1: {,}", "007: 1"]
+               "2: {1 , 2} , { }", "1:", "1: {,}", "007: 1", "1\t: 1\t,2", "2 :{1 ,\t2}, {\t}", "3:\u00a01, 2",
+               "\u30001 : 2,{ } ", "1: {1, 2}, 3}", "1: {{1, 2}, 3", "1: 1;2", "2: {1 2}, 3"]
     body = [rng.choice(ballots) for _ in range(rng.randint(0, 7))]
     r = rng.random()
     if r < 0.08:
